@@ -23,3 +23,20 @@ Print Assumptions C03_op_tables.
 Theorem C03_no_unknown_operator : forall r, In r ins_ops -> In (fst r) (map snd all_ops).
 Proof. exact instrumenter_ops_are_language_ops. Qed.
 Print Assumptions C03_no_unknown_operator.
+
+(* ---- end-to-end part (MiniPy): the deliveries of the instrumented program are the deliveries of the
+   reference semantics, where every evaluated expression reports itself once, after its operands, with the
+   operands and the result the program computed, and unevaluated operands report nothing *)
+From DV Require Import Engine.Dispatch Py.Syntax Py.Sem Py.Instr Py.Refine Py.Props Concrete.Run Concrete.Witness.
+Theorem C03_deliveries_are_reference_deliveries :
+  forall (D : data) (analyses : list (analysis (Sem.earg (d_val D)))) (modpath : string)
+         (H : list string) (p : program) (fuel : nat) (s : state D),
+    pure_truth D -> src_prog p = true -> ok_prog H p = true ->
+    deliveries D (inst_run D analyses modpath H fuel p s) = deliveries D (ref_run D analyses modpath H fuel p s).
+Proof. exact same_deliveries. Qed.
+Print Assumptions C03_deliveries_are_reference_deliveries.
+
+Theorem C03_refuted_chain_eager :
+  obs_same (run_inst 40 h_chain_eager a_chain_eager false w_chain_eager) (run_ref 40 h_chain_eager a_chain_eager false w_chain_eager) = false.
+Proof. exact w_chain_eager_deviates. Qed.
+Print Assumptions C03_refuted_chain_eager.
